@@ -231,9 +231,12 @@ def fanout_isolated(modname, funcname, tasks, nproc=None, task_wall=1800, stop_w
         with open(argf, "wb") as f:
             pickle.dump(tasks[i], f)
         try:
-            cenv = None
+            # glibc overwrites every freed block with this byte and every fresh block with its complement: reads of freed or
+            # uninitialised heap memory in the code under test then give the same junk in every process instead of
+            # whatever the block held before - such defects become visible AND replayable
+            cenv = dict(os.environ)
+            cenv.setdefault("MALLOC_PERTURB_", "165")
             if env:
-                cenv = dict(os.environ)
                 cenv.update(env)
             p = subprocess.run([sys.executable, "-u", main_py, "--worker", modname, funcname, argf, out],
                                stdout=subprocess.PIPE, stderr=subprocess.STDOUT, timeout=task_wall, env=cenv)
